@@ -518,7 +518,11 @@ func (hm *HostMap) unlockedDeleteHostInfo(hostinfo *HostInfo) bool {
 		}
 	}
 
-	delete(hm.Indexes, hostinfo.localIndexId)
+	// A hostinfo can be deleted more than once (callers race teardown). By then its local index may
+	// have been handed out again, so only remove the entry if it still points at this hostinfo.
+	if hm.Indexes[hostinfo.localIndexId] == hostinfo {
+		delete(hm.Indexes, hostinfo.localIndexId)
+	}
 	if len(hm.Indexes) == 0 {
 		hm.Indexes = map[uint32]*HostInfo{}
 	}
@@ -537,7 +541,9 @@ func (hm *HostMap) unlockedDeleteHostInfo(hostinfo *HostInfo) bool {
 	}
 	// Clean up any local relay indexes for which I am acting as a relay hop
 	for _, localRelayIdx := range hostinfo.relayState.CopyRelayForIdxs() {
-		delete(hm.Relays, localRelayIdx)
+		if hm.Relays[localRelayIdx] == hostinfo {
+			delete(hm.Relays, localRelayIdx)
+		}
 	}
 
 	return final
